@@ -45,7 +45,7 @@ fn main() {
         let prop = args.get(1).cloned().unwrap_or_default();
         let tier = if args.get(2).map(|s| s == "thorough").unwrap_or(false) { Tier::Thorough } else { Tier::Quick };
         // variant runs use a fraction of the std budget: same generators, fewer cases
-        let ctx = Ctx::new(&prop, if std::env::var_os("VERIF_VARIANT_FULL").is_some() || prop == "C19" || prop == "C17" { tier } else { Tier::Quick });
+        let ctx = Ctx::new(&prop, if std::env::var_os("VERIF_VARIANT_FULL").is_some() || prop == "C19" || prop.starts_with("C17") { tier } else { Tier::Quick });
         let _ = tier;
         rt::props::print_sub_reports(&ctx);
         return;
